@@ -91,6 +91,8 @@ type interpreter struct {
 	domains     map[int]int
 	fe          *fastEvaluator
 	doms        map[int]*varDomain
+	sch         *scheduler
+	schAbort    bool
 	hardAssume  bool // the assumption defines a variable's domain: the solver must see it
 	scratch     []uint64
 	prefiltered int
@@ -120,7 +122,8 @@ type PathResult struct {
 	Tape       []uint64
 	Notes      []string
 	Steps      int
-	Violations int // assertion failures found on this path
+	Violations int    // assertion failures found on this path
+	Schedule   string `json:",omitempty"` // scheduler mode: goroutine ids in the order they were given the token
 }
 
 // Config of one exploration.
@@ -452,7 +455,11 @@ func (i *interpreter) runPath(s seed) (res PathResult) {
 	i.prefiltered = 0
 	i.fe = nil
 
+	i.schAbort = false
+	i.sch = nil
 	defer func() {
+		res.Schedule = i.scheduleString()
+		i.endSchedule()
 		i.rollback()
 		res.Tape = i.tape()
 		res.Notes = i.renderNotes(i.model)
@@ -780,6 +787,9 @@ func (i *interpreter) violation(id, msg string, tape []uint64) {
 			msg = r[0]
 		}
 		i.notes = saved
+	}
+	if sc := i.scheduleString(); sc != "" {
+		msg += " schedule=" + sc
 	}
 	i.violations = append(i.violations, Violation{ID: id, Msg: msg, Tape: tape, Notes: i.renderNotes(tape), Harness: i.ex.cfg.Harness, PathLen: len(i.decisions)})
 }
